@@ -157,3 +157,10 @@ func init() {
 		checkC14Case(ctx, idx, rep)
 	}}
 }
+
+func init() {
+	Registry["C07"] = Monitor{Run: RunC07, Replay: func(ctx *core.Ctx, rep *core.Report, w map[string]any) {
+		idx, _ := witnessInt(w, "c07_case")
+		checkC07Case(ctx, idx, rep)
+	}}
+}
